@@ -5,6 +5,7 @@ with dot/space runs before ':' for _is_ntfs_dotgit.  Never counted as proved."""
 import json
 import os
 import sys
+import shutil
 import tempfile
 import time
 
@@ -59,8 +60,97 @@ def main():
                 got = False
             if got != ok:
                 fail("_ensure_within_repo containment", {"target": rel.decode(), "accepted": got, "expected_accepted": ok})
-    print(json.dumps({"name": "c17_fs", "function": "dulwich/patch.py:_ensure_within_repo, dulwich/index.py:_is_ntfs_dotgit", "cases": cases, "exhaustive": True,
-                      "bound": "15 targets x a work tree 'proj' with siblings 'proj-backup'/'projx' and 6 symlinks; 7 heads x all tails <= 4 over {'.',' ',':','a'}",
+    # ---- HFS+: git's is_hfs_dotgit - ".git" (any case) with any of the 16 ignorable code points (utf8.c: next_hfs_char) inserted
+    #      anywhere must be refused; the same letters with a non-ignorable neighbour code point must not be
+    from dulwich.index import validate_path_element_hfs
+    IGNORABLE = [0x200C, 0x200D, 0x200E, 0x200F, 0x202A, 0x202B, 0x202C, 0x202D, 0x202E, 0x206A, 0x206B, 0x206C, 0x206D, 0x206E, 0x206F, 0xFEFF]
+    NOT_IGNORABLE = [0x200B, 0x2010, 0x2029, 0x202F, 0x2069, 0x2070, 0xFEFE, 0x00E9]
+    for base_ in (".git", ".GIT", ".gIt"):
+        for pos in range(0, len(base_) + 1):
+            for cp in IGNORABLE + NOT_IGNORABLE:
+                for twice in (False, True):
+                    cases += 1
+                    name = (base_[:pos] + chr(cp) * (2 if twice else 1) + base_[pos:]).encode("utf-8")
+                    want_ok = cp in NOT_IGNORABLE
+                    got_ok = bool(validate_path_element_hfs(name))
+                    if got_ok != want_ok:
+                        fail("validate_path_element_hfs != git's is_hfs_dotgit on ignorable code points", {"name": name.hex(), "code_point": hex(cp), "accepted": got_ok})
+            for cp1 in (0x206A, 0x200C):
+                for cp2 in (0x206F, 0xFEFF):
+                    cases += 1
+                    name = (chr(cp1) + base_[:pos] + chr(cp2) + base_[pos:] + chr(cp1)).encode("utf-8")
+                    if validate_path_element_hfs(name):
+                        fail("validate_path_element_hfs != git's is_hfs_dotgit on ignorable code points", {"name": name.hex(), "accepted": True})
+    # ---- patch application end to end: targets reached through symlinks that a checkout left in the work tree (last component
+    #      or leading directory, pointing into .git, outside, or at a sibling inside): whatever the patch says, nothing outside the
+    #      work tree and nothing inside .git (except the index) may change
+    import stat as _stat
+    from dulwich.index import build_index_from_tree
+    from dulwich.objects import Blob, Tree
+    from dulwich.patch import apply_patches, parse_unified_diff
+    from dulwich.repo import Repo
+
+    def snapshot(top, skip):
+        out = {}
+        for dp, dns, fns in os.walk(top):
+            for fn in fns:
+                fp = os.path.join(dp, fn)
+                if fp in skip:
+                    continue
+                try:
+                    out[fp] = open(fp, "rb").read() if not os.path.islink(fp) else b"->" + os.fsencode(os.readlink(fp))
+                except OSError:
+                    out[fp] = None
+        return out
+    link_targets = {"into-git": b".git/config", "outside-file": b"../outside/secret", "git-hooks-dir": b".git/hooks", "outside-dir": b"../outside", "inside": b"plain"}
+    for lname, ltarget in link_targets.items():
+        for kind in ("modify", "rename-to", "binary-less-new-file-below", "delete"):
+            cases += 1
+            parent = tempfile.mkdtemp(prefix="c17fs-")
+            try:
+                os.mkdir(os.path.join(parent, "outside"))
+                open(os.path.join(parent, "outside", "secret"), "wb").write(b"secret\n")
+                wt = os.path.join(parent, "wt")
+                os.mkdir(wt)
+                r = Repo.init(wt)
+                lb, pb = Blob.from_string(ltarget), Blob.from_string(b"plain\n")
+                t = Tree()
+                t.add(b"link", _stat.S_IFLNK, lb.id)
+                t.add(b"plain", 0o100644, pb.id)
+                t.add(b"src", 0o100644, pb.id)
+                r.object_store.add_objects([(lb, None), (pb, None), (t, None)])
+                build_index_from_tree(wt, r.index_path(), r.object_store, t.id)
+                index_path = os.path.join(wt, ".git", "index")
+                before_out = snapshot(os.path.join(parent, "outside"), set())
+                before_git = snapshot(os.path.join(wt, ".git"), {index_path})
+                before_plain = open(os.path.join(wt, "plain"), "rb").read()
+                if kind == "modify":
+                    diff = b"diff --git a/link b/link\n--- a/link\n+++ b/link\n@@ -0,0 +1,1 @@\n+evil\n"
+                elif kind == "rename-to":
+                    diff = b"diff --git a/src b/link\nsimilarity index 100%\nrename from src\nrename to link\n"
+                elif kind == "delete":
+                    diff = b"diff --git a/link b/link\ndeleted file mode 120000\n--- a/link\n+++ /dev/null\n@@ -1 +0,0 @@\n-" + ltarget + b"\n\\ No newline at end of file\n"
+                else:
+                    diff = b"diff --git a/link/new b/link/new\nnew file mode 100644\n--- /dev/null\n+++ b/link/new\n@@ -0,0 +1,1 @@\n+evil\n"
+                try:
+                    apply_patches(r, parse_unified_diff(diff), strip=1)
+                except Exception:  # noqa: BLE001
+                    pass                                          # refusing is fine
+                r.close()
+                after_out = snapshot(os.path.join(parent, "outside"), set())
+                after_git = snapshot(os.path.join(wt, ".git"), {index_path})
+                if after_out != before_out:
+                    fail("patch application changed something outside the work tree", {"link_target": ltarget.decode(), "patch": kind, "changed": sorted(set(k for k in set(before_out) | set(after_out) if before_out.get(k) != after_out.get(k)))[:3]})
+                if after_git != before_git:
+                    fail("patch application changed something inside .git", {"link_target": ltarget.decode(), "patch": kind, "changed": sorted(os.path.relpath(k, wt) for k in set(before_git) | set(after_git) if before_git.get(k) != after_git.get(k))[:3]})
+                if lname == "inside" and kind != "delete" and open(os.path.join(wt, "plain"), "rb").read() != before_plain:
+                    fail("patch application wrote THROUGH a symlink onto another tracked file", {"link_target": ltarget.decode(), "patch": kind})
+            except Exception as e:  # noqa: BLE001
+                fail("patch scenario raised (harness)", {"link_target": ltarget.decode(), "patch": kind, "exc": repr(e)[:200]})
+            finally:
+                shutil.rmtree(parent, ignore_errors=True)
+    print(json.dumps({"name": "c17_fs", "function": "dulwich/patch.py:_ensure_within_repo / apply_patches, dulwich/index.py:_is_ntfs_dotgit / validate_path_element_hfs", "cases": cases, "exhaustive": True,
+                      "bound": "HFS: 3 spellings of .git x every insertion point x 16 ignorable + 8 neighbouring code points (single, doubled, mixed); patch application: 5 symlink targets (into .git, .git/hooks, outside file / directory, inside) x 4 patch kinds on a checked-out tree; 15 targets x a work tree 'proj' with siblings 'proj-backup'/'projx' and 6 symlinks; 7 heads x all tails <= 4 over {'.',' ',':','a'}",
                       "failures": failures, "secs": round(time.time() - t0, 2)}))
 
 
